@@ -358,4 +358,6 @@ func c20netCases(e vt.Env, yield func(vt.Case) bool) {
 			}
 		}
 	}
+	// N/ctx: the context ends while Loop is not inside Accept (c20_netctx.go).
+	c20netCtxCases(e, yield)
 }
